@@ -313,6 +313,12 @@ theorem table_wire_carries_every_counter :
 /-- the constants are positive (a zero period would divide by zero in Go; a zero budget would make every chunk a singleton) -/
 theorem table_constants_positive : 0 < Gen.c25MaxMessageSize ∧ 0 < Gen.c25SamplingPeriod := by decide
 
+/-- the chunker makes up no error of its own: every error it returns is `sendFunc`'s. The model's chunker cannot fail
+    (`chunker_partition` is about a total function), and the only caller, gRPCChunkSender, discards the error of
+    `chunk.SendAll` — an item the chunker refused would vanish silently together with the rest of its result -/
+theorem table_chunker_originates_no_error :
+    Gen.c25ChunkerErrorOrigins = [] ∨ ¬ ("discarded" ∈ Gen.c25SendAllErrorUses) := by decide
+
 /-! ### non-vacuity -/
 
 def exStats (a b : Nat) : Stats := ⟨[a, b], 0, 0⟩
